@@ -210,7 +210,7 @@ func baseWeights() map[string]int {
 	return map[string]int{
 		"scan": 10, "targetUtil": 8, "advance": 6, "addPods": 2, "finishPods": 1, "clearNode": 2, "schedule": 1,
 		"launch": 2, "reconcile": 1, "register": 2, "gcNodes": 1, "cordon": 2, "taintExt": 3, "foreignTaint": 1,
-		"removeTaint": 1, "annotate": 1, "asgDesired": 1, "restart": 1, "notReady": 1,
+		"removeTaint": 1, "annotate": 1, "asgDesired": 1, "restart": 1, "notReady": 1, "gracefulDelete": 1, "heartbeat": 1, "settle": 1,
 	}
 }
 
